@@ -208,7 +208,7 @@ def C09_5(ctx, facts):
                 bad.append((g, c, "calls %s" % n))
             if n.endswith("::poll") and ("tokio_rustls::Accept<" in ty or "tokio_rustls::server::TlsStream<" in ty or "TlsStream<" in ty):
                 bad.append((g, c, "polls %s" % ty[:60]))
-            if re.search(r"LazyConfigAcceptor|::poll_(read|write)$", n) and "poll_accept" in g.nkey:
+            if re.search(r"LazyConfigAcceptor|::poll_(read|write|peek|read_ready|write_ready)$|::try_(read|write)$", n) and "poll_accept" in g.nkey:
                 bad.append((g, c, "does I/O on the accepted stream: %s" % n))
     ctx.check(not bad, "accept-path|no-handshake", "no TLS handshake / stream I/O is reachable from any poll_accept (%d functions examined)" % len(seen),
               "the accept path performs a handshake: %s" % [(g.nkey, why) for (g, c, why) in bad[:3]], bad[0][1].where() if bad else None)
